@@ -110,12 +110,17 @@ def body(variant, els):
     return "\n".join(lines)
 
 
-def amap(ndims, A, b):
+def amap(ndims, A, b, wrap=None):
+    """wrap = {"row": j, "dim": k, "m": m, "op": "mod" | "floordiv"}: the term c*d_k of row j becomes c*(d_k <op> m)
+    (a cyclically re-used operand / a flattened loop over a padded buffer): NOT an affine pattern"""
     exprs = []
-    for row, off in zip(A, b):
+    for j, (row, off) in enumerate(zip(A, b)):
         terms = []
         for k, c in enumerate(row):
             if c == 0:
+                continue
+            if wrap and wrap["row"] == j and wrap["dim"] == k:
+                terms.append(f"((d{k} {wrap['op']} {wrap['m']}) * {c})")
                 continue
             terms.append(f"d{k}" if c == 1 else f"(d{k} * {c})")
         if off != 0 or not terms:
@@ -154,13 +159,14 @@ def mlir_parts(case):
     zp = "  %zp = arith.constant 0 : i32\n" if acc == "snax_gemmx" and v != "simd" else ""
     if case["kind"] == "access":
         tys = ["index"] * n
-        pats = ", ".join(amap(len(case["bounds"]), [s], [0]) for s in case["strides"])
+        pats = ", ".join(amap(len(case["bounds"]), [s], [0], (case.get("wraps") or {}).get(str(i)))
+                         for i, s in enumerate(case["strides"]))
         bstr = ", ".join(f"{b} : index" for b in case["bounds"])
         props = f'patterns = [{pats}], accelerator = "{acc}", bounds = [{bstr}]'
         opname = "dart.access_pattern"
     else:
         tys = [memref_ty(o["shape"], e, o.get("layout")) for o, e in zip(case["operands"], els)]
-        pats = ", ".join(amap(case["ndims"], o["A"], o["b"]) for o in case["operands"])
+        pats = ", ".join(amap(case["ndims"], o["A"], o["b"], o.get("wrap")) for o in case["operands"])
         if case["kind"] == "sched":
             bstr = ", ".join(f"{b} : index" for b in case["bounds"])
             props = f'patterns = [{pats}], accelerator = "{acc}", tiles = [[]], bounds = [{bstr}]'
@@ -337,13 +343,43 @@ def layout_aexpr(lay, off, elb):
     return e
 
 
+def aexpr_json(e):
+    """xDSL affine expression -> the JSON form of the Lean driver"""
+    from xdsl.ir.affine import AffineBinaryOpExpr, AffineBinaryOpKind, AffineConstantExpr, AffineDimExpr
+    if isinstance(e, AffineDimExpr):
+        return ["d", e.position]
+    if isinstance(e, AffineConstantExpr):
+        return ["c", e.value]
+    if isinstance(e, AffineBinaryOpExpr):
+        tag = {AffineBinaryOpKind.Add: "+", AffineBinaryOpKind.Mul: "*", AffineBinaryOpKind.Mod: "%",
+               AffineBinaryOpKind.FloorDiv: "//", AffineBinaryOpKind.CeilDiv: "ceildiv"}[e.kind]
+        return [tag, aexpr_json(e.lhs), aexpr_json(e.rhs)]
+    raise ValueError(f"affine expression {e}")
+
+
+def pattern_data(amap_):
+    """(A, b) as the unit response of the map (computed by the harness, no linearity guard), the result expressions for the
+    model, and what the REAL AffineTransform.from_affine_map makes of the map (None: it refuses)"""
+    from snaxc.ir.dart.affine_transform import AffineTransform
+    n = amap_.num_dims
+    b = [int(v) for v in amap_.eval([0] * n, [])]
+    cols = [[int(v) - bb for v, bb in zip(amap_.eval([1 if j == d else 0 for j in range(n)], []), b)] for d in range(n)]
+    A = [[cols[d][r] for d in range(n)] for r in range(len(b))]
+    try:
+        T = AffineTransform.from_affine_map(amap_)
+        real = {"A": [[int(v) for v in row] for row in T.A.tolist()], "b": [int(v) for v in T.b.tolist()]}
+    except ValueError:
+        real = None
+    return A, b, [aexpr_json(r) for r in amap_.results], real
+
+
 def linear_flags(sch, bounds, strides):
     """per operand: is the real composed map (xDSL get_affine_map_in_bytes ∘ pattern) equal to sum x_i * stride_i at
     every point of the iteration box?  None if the box is too large to enumerate."""
     n = 1
     for b in bounds:
         n *= b
-    if n > 20000:
+    if n > 6000:
         return [None] * len(strides)
     out = []
     for opnd, pat, st in zip(sch.operands, sch.patterns.data, strides):
@@ -485,7 +521,7 @@ def row_major(shape):
     return out
 
 
-def gen_axes(rng, variant, max_tiles=4):
+def gen_axes(rng, variant, max_tiles=4, tiles_choice=(0, 1, 1, 2), bound_choice=(1, 2, 2, 3, 4, 4, 6), fixed_tiles=None):
     """loop axes with their tiles: returns (ndims, bounds, per axis list of (schedule dim, coefficient), axis sizes);
     the template dims are the LAST schedule dims, one per template axis, coefficient 1"""
     tb = VARIANTS[variant][3]
@@ -494,13 +530,15 @@ def gen_axes(rng, variant, max_tiles=4):
     axes = [[] for _ in range(naxes + extra_axes)]
     tiles = []
     for a in range(len(axes)):
-        for _ in range(rng.choice([0, 1, 1, 2]) if a < naxes else rng.choice([1, 1, 2])):
+        for _ in range(rng.choice(list(tiles_choice)) if a < naxes else rng.choice([1, 1, 2])):
             tiles.append(a)
     rng.shuffle(tiles)
     while len(tiles) > max_tiles:
         tiles.pop()
+    if fixed_tiles is not None:
+        tiles = list(fixed_tiles)
     ntemp = len(tiles)
-    bounds = [rng.choice([1, 2, 2, 3, 4, 4, 6]) for _ in tiles] + list(tb)
+    bounds = [rng.choice(list(bound_choice)) for _ in tiles] + list(tb)
     ndims = ntemp + naxes
     size = [1] * len(axes)
     for a in range(naxes):
@@ -514,7 +552,7 @@ def gen_axes(rng, variant, max_tiles=4):
     return ndims, bounds, axes, size
 
 
-def gen_layout(rng, shape, tile_hint, mode, prio=None, safe=False):
+def gen_layout(rng, shape, tile_hint, mode, prio=None, safe=False, shuffle_outer=False, tiles_spec=None):
     """mode: none | strided | tsl | offset | unaligned; prio[j] = template axis of operand dim j (-1: temporal only):
     the dim with the highest template axis is made innermost most of the time (what the streamers need)"""
     rank = len(shape)
@@ -545,11 +583,19 @@ def gen_layout(rng, shape, tile_hint, mode, prio=None, safe=False):
                 tiles.append([n // t, t])
         else:
             tiles.append([n])
+    if tiles_spec is not None:
+        tiles = [list(t) for t in tiles_spec]     # one layout tile per schedule tile loop (aligned by construction)
     slots = [(j, d) for j, t in enumerate(tiles) for d in range(len(t))]
     # innermost tiles first (mostly), like set-memory-layout does
     slots.sort(key=lambda jd: (-(jd[1] - len(tiles[jd[0]])), -prio[jd[0]]))
     if not safe and rng.random() < 0.12:
         rng.shuffle(slots)
+    if shuffle_outer:
+        # keep the innermost tiles where the streamers need them, put the outer tiles in a random memory order
+        inner = [jd for jd in slots if jd[1] == len(tiles[jd[0]]) - 1]
+        outer = [jd for jd in slots if jd[1] != len(tiles[jd[0]]) - 1]
+        rng.shuffle(outer)
+        slots = inner + outer
     lay = [[[0, b] for b in t] for t in tiles]
     s = 1
     for j, d in slots:
@@ -560,12 +606,19 @@ def gen_layout(rng, shape, tile_hint, mode, prio=None, safe=False):
     return ["tsl", lay, 0]
 
 
-def gen_sched(rng, big=False, variant=None, safe=False):
+def gen_sched(rng, big=False, variant=None, safe=False, deep=False, cyclic=False):
     """safe: layouts that the streamers accept most of the time (used for the ops of multi-op modules)"""
     variant = variant or rng.choice(["alu", "alu", "alu", "xdma_add", "xdma_down", "xdma_up", "mm32", "mm32", "mm8", "gemm32",
                                      "gemm8", "simd"] * 4 + ["mm16", "gemm16"])
-    max_tiles = 4 if not safe else 1 if variant == "alu" else 2
-    ndims, bounds, axes, size = gen_axes(rng, variant, max_tiles)
+    max_tiles = 4 if not safe or deep else 1 if variant == "alu" else 2
+    if deep:
+        # often: M tiled twice (adjacent, so that B's zero-stride loops fold), N and K once -> the output needs 4 loops
+        fixed = rng.choice([[0, 0, 1, 2], [1, 0, 0, 2], [1, 1, 0, 2], [0, 1, 1, 2]]) if rng.random() < 0.6 else None
+        ndims, bounds, axes, size = gen_axes(rng, variant, 4, (1, 1, 2), (2, 2, 2, 2, 3), fixed)
+    elif cyclic:
+        ndims, bounds, axes, size = gen_axes(rng, variant, max_tiles, (1, 1, 2), (4, 6, 8))
+    else:
+        ndims, bounds, axes, size = gen_axes(rng, variant, max_tiles)
     tb = VARIANTS[variant][3]
     rows_tpl = VARIANTS[variant][4]
     naxes = len(tb)
@@ -606,7 +659,10 @@ def gen_sched(rng, big=False, variant=None, safe=False):
         hint = [tb[a] if a < naxes else rng.choice([2, 4]) for a in op_axes]
         prio = [a if a < naxes else -1 for a in op_axes]
         tsl_off = flavour == "offset" and i == bad_op and rng.random() < 0.4
-        lay = gen_layout(rng, shape, hint, "tsl" if tsl_off else mode, prio, safe)
+        spec = None
+        if deep:
+            spec = [[bounds[d] for d, _ in reversed(axes[a][1:])] + [tb[a]] for a in op_axes]
+        lay = gen_layout(rng, shape, hint, "tsl" if tsl_off else mode, prio, safe, shuffle_outer=deep, tiles_spec=spec)
         if tsl_off:
             lay[2] = rng.choice([1, 2, 4, 8])
         if flavour == "dynamic" and i == bad_op:
@@ -654,6 +710,43 @@ def mlir_region(case):
   }}) : ({", ".join(["index"] * k)}) -> ()
   func.return
 }}'''
+
+
+def gen_deep(rng):
+    """snax_gemmx with three or four temporal tile loops and outer tiles in a random memory order: stride patterns that
+    need more temporal loops than some streamers have (the verifier has to refuse them; a pattern that is accepted is judged
+    by the oracle on the loop nest the streamer really has)"""
+    return gen_sched(rng, variant=rng.choice(["mm32", "mm32", "mm32", "gemm32", "gemm32", "mm8", "gemm8"]), safe=True, deep=True)
+
+
+def gen_cyclic(rng):
+    """a schedule / access pattern with a `mod c` or `floordiv c` term (cyclically re-used operand, flattened loop over a
+    padded buffer) whose trip count passes the wrap point: not an affine map, the passes have to refuse it"""
+    if rng.random() < 0.75:
+        case = gen_sched(rng, variant=rng.choice(["alu", "alu", "xdma_add", "mm32", "mm8", "simd"]), safe=True, cyclic=True)
+        cands = []
+        for i, o in enumerate(case["operands"]):
+            for j, row in enumerate(o["A"]):
+                for k, c in enumerate(row):
+                    # a temporal dimension whose trip count passes the wrap point
+                    if c > 0 and k < case["ndims"] - len(VARIANTS[case["variant"]][3]) and case["bounds"][k] >= 4:
+                        cands.append((i, j, k))
+        if cands:
+            i, j, k = rng.choice(cands)
+            bd = case["bounds"][k]
+            m = rng.randrange(max(2, min(k + 3, bd - 1)), bd) if rng.random() < 0.8 else rng.randrange(2, bd)
+            case["operands"][i]["wrap"] = {"row": j, "dim": k, "m": m, "op": rng.choice(["mod", "mod", "floordiv"])}
+        return case
+    case = gen_access(rng)
+    nt = len(case["bounds"]) - len(VARIANTS[case["variant"]][3])
+    if nt:
+        k = rng.randrange(nt)
+        case["bounds"][k] = rng.choice([4, 6, 8])
+        i = rng.randrange(len(case["strides"]))
+        if case["strides"][i][k] == 0:
+            case["strides"][i][k] = 64
+        case["wraps"] = {str(i): {"row": 0, "dim": k, "m": rng.randrange(2, case["bounds"][k]), "op": rng.choice(["mod", "floordiv"])}}
+    return case
 
 
 GEMMX_VARIANTS = ["mm32", "mm8", "gemm32", "gemm8", "simd"]
@@ -789,8 +882,13 @@ class C02(Prop):
 
     def cases(self, rng, tier):
         q = tier == "quick"
-        for _ in range(330 if q else 5000):
+        # the expensive deep cases are spread over the list (the fork pool hands out consecutive chunks)
+        deep = [gen_deep(rng) for _ in range(48 if q else 800)]
+        for k in range(330 if q else 5000):
             yield gen_sched(rng, big=not q)
+            if k % 6 == 0 and deep:
+                yield deep.pop()
+        yield from deep
         for _ in range(70 if q else 1200):
             yield gen_pipe(rng)
         for _ in range(260 if q else 5000):
@@ -799,6 +897,8 @@ class C02(Prop):
             yield gen_multi(rng)
         for _ in range(60 if q else 1000):
             yield gen_region(rng)
+        for _ in range(50 if q else 800):
+            yield gen_cyclic(rng)
         if not q:
             yield from self.exhaustive()
 
@@ -878,10 +978,10 @@ class C02(Prop):
             bounds = [x.value.data for x in sch.bounds.data]
             ops = []
             for pat, opnd in zip(sch.patterns.data, sch.operands):
-                T = AffineTransform.from_affine_map(pat.data)
+                A_, b_, pj, real = pattern_data(pat.data)
                 lay, off, lkind = layout_data(opnd.type)
                 elb = el_bytes_of(opnd.type)
-                ops.append({"A": [[int(v) for v in row] for row in T.A.tolist()], "b": [int(v) for v in T.b.tolist()],
+                ops.append({"A": A_, "b": b_, "pat": pj, "AB_real": real,
                             "lay": lay, "off": off, "lkind": lkind, "el": elb, "shape": list(opnd.type.get_shape())})
             out["sched"] = {"bounds": bounds, "ops": ops}
             self._cache.clear()
@@ -895,13 +995,15 @@ class C02(Prop):
         aps = find(m2, dart.AccessPatternOp)
         assert len(aps) == 1
         ap = aps[0]
-        strides = []
+        strides, apats, areal = [], [], []
         for pat in ap.patterns.data:
-            T = AffineTransform.from_affine_map(pat.data)
-            assert T.A.shape[0] == 1 and int(T.b[0]) == 0
-            strides.append([int(v) for v in T.A[0].tolist()])
+            A_, b_, pj, real = pattern_data(pat.data)
+            assert len(A_) == 1 and b_[0] == 0
+            strides.append(A_[0])
+            apats.append(pj)
+            areal.append(real)
         out["access"] = {"bounds": [x.value.data for x in ap.bounds.data], "strides": strides,
-                         "els": [EL_BYTES[e] for e in op_els(case)]}
+                         "els": [EL_BYTES[e] for e in op_els(case)], "pats": apats, "AB_real": areal}
         if out["sched"]:
             out["linear"] = linear_flags(sch, out["sched"]["bounds"], strides)
         try:
@@ -966,9 +1068,9 @@ class C02(Prop):
         for out, sch in zip(outs, schs):
             ops = []
             for pat, opnd in zip(sch.patterns.data, sch.operands):
-                T = AffineTransform.from_affine_map(pat.data)
+                A_, b_, pj, real = pattern_data(pat.data)
                 lay, off, lkind = layout_data(opnd.type)
-                ops.append({"A": [[int(v) for v in row] for row in T.A.tolist()], "b": [int(v) for v in T.b.tolist()],
+                ops.append({"A": A_, "b": b_, "pat": pj, "AB_real": real,
                             "lay": lay, "off": off, "lkind": lkind, "el": el_bytes_of(opnd.type),
                             "shape": list(opnd.type.get_shape())})
             out["sched"] = {"bounds": [x.value.data for x in sch.bounds.data], "ops": ops}
@@ -981,13 +1083,15 @@ class C02(Prop):
         aps = find(m2, dart.AccessPatternOp)
         assert len(aps) == len(subs)
         for out, ap, sub, sch in zip(outs, aps, subs, schs):
-            strides = []
+            strides, apats, areal = [], [], []
             for pat in ap.patterns.data:
-                T = AffineTransform.from_affine_map(pat.data)
-                assert T.A.shape[0] == 1 and int(T.b[0]) == 0
-                strides.append([int(v) for v in T.A[0].tolist()])
+                A_, b_, pj, real = pattern_data(pat.data)
+                assert len(A_) == 1 and b_[0] == 0
+                strides.append(A_[0])
+                apats.append(pj)
+                areal.append(real)
             out["access"] = {"bounds": [x.value.data for x in ap.bounds.data], "strides": strides,
-                             "els": [EL_BYTES[e] for e in op_els(sub)]}
+                             "els": [EL_BYTES[e] for e in op_els(sub)], "pats": apats, "AB_real": areal}
             out["linear"] = linear_flags(sch, out["sched"]["bounds"], strides)
             try:
                 out["geo"] = geometry(ap)
@@ -1110,10 +1214,13 @@ class C02(Prop):
                 else:
                     ops.append({"L": layout_aexpr(o["lay"], o["off"], o["el"]), "A": o["A"], "b": o["b"],
                                 "strides": None, "el": o["el"]})
+                # A and b are recomputed by the model of AffineTransform.from_affine_map from the pattern itself
+                ops[-1]["pat"] = o.get("pat")
         else:
             bounds = impl_out["access"]["bounds"]
-            for st, e in zip(impl_out["access"]["strides"], impl_out["access"]["els"]):
-                ops.append({"L": None, "A": [], "b": [], "strides": st, "el": e})
+            acc_ = impl_out["access"]
+            for st, e, pj in zip(acc_["strides"], acc_["els"], acc_.get("pats") or [None] * len(acc_["strides"])):
+                ops.append({"L": None, "A": [], "b": [], "strides": st, "el": e, "pat": pj})
         for i, o in enumerate(ops):
             if ronly or geo is None:
                 o.update({"relevant": [True] * len(bounds), "dims": [], "bc": False, "k": 0})
@@ -1121,6 +1228,7 @@ class C02(Prop):
                 o.update({"relevant": geo["relevant"][i], "dims": geo["dims"][i], "bc": geo["bc"][i], "k": geo["k"][i]})
         variant = geo["variant"] if geo else {"acc": "generic"}
         return [{"fn": "c02.run", "args": {"bounds": bounds, "variant": variant, "resolveOnly": ronly, "ops": ops,
+                                           "accessLevel": not impl_out.get("sched"),
                                            "streamers": geo["streamers"] if geo else []}}]
 
     def model(self, case, answers, impl_out):
@@ -1150,7 +1258,8 @@ class C02(Prop):
         if "err" in a:
             return {"model_error": a["err"]}
         r = a["ok"]
-        out = {"strides": r["strides"], "conv": r["conv"], "aligned": r.get("aligned"), "dataIndex": r.get("dataIndex")}
+        out = {"strides": r["strides"], "conv": r["conv"], "aligned": r.get("aligned"), "dataIndex": r.get("dataIndex"),
+               "AB": r.get("AB")}
         if "resolveRaised" in r:
             out["resolveRaised"] = r["resolveRaised"]
         c = r["conv"]
@@ -1212,6 +1321,10 @@ class C02(Prop):
                 return f"layout resolution raised {impl_out['raised']}, model: {model_out.get('resolveRaised')}"
             if "resolveRaised" in model_out:
                 return f"model: layout resolution raises {model_out['resolveRaised']}, impl resolved {impl_out['access']['strides']}"
+            for i, (ab, o) in enumerate(zip(model_out.get("AB") or [], impl_out["sched"]["ops"])):
+                if ab is not None and o.get("AB_real") != ab:
+                    return (f"operand {i}: AffineTransform.from_affine_map gives {o.get('AB_real')}, the model {ab} "
+                            f"for the pattern {o.get('pat')}")
             if impl_out["access"]["strides"] != model_out["strides"]:
                 return f"access-pattern strides: impl {impl_out['access']['strides']} model {model_out['strides']}"
             d = self.aligned_check(impl_out, model_out)
@@ -1292,7 +1405,7 @@ class C02(Prop):
         for b in bounds:
             n *= b
         if n > 4 * MAX_BYTES:
-            return None, None
+            return None, None, None
         lm = sch.operands[i].type.get_affine_map_in_bytes()
         pm = sch.patterns.data[i].data
         # the `offset` of a #tsl.tsl layout is part of the layout (element units) although TiledStridedLayoutAttr.get_affine_map
@@ -1300,17 +1413,22 @@ class C02(Prop):
         toff = s["ops"][i]["off"] * el if s["ops"][i].get("lkind") == "tsl" else 0
         steps = []
         linear = True
+        affine = True      # is the schedule pattern itself the affine map A x + b (its unit response) on the box?
         st_i = impl_out["access"]["strides"][i]
+        A_, b_ = s["ops"][i]["A"], s["ops"][i]["b"]
         for o in itertools.product(*[range(b) for b in bounds[:nt]]):
             st = set()
             for p in itertools.product(*[range(b) for b in bounds[nt:]]):
                 x = list(o) + list(p)
-                a = lm.eval(pm.eval(x, []), [])[0] + toff
+                idx = pm.eval(x, [])
+                if affine and list(idx) != [sum(c * xi for c, xi in zip(row, x)) + bb for row, bb in zip(A_, b_)]:
+                    affine = False
+                a = lm.eval(idx, [])[0] + toff
                 if a != sum(xi * si for xi, si in zip(x, st_i)):
                     linear = False
                 st.update(range(a, a + el))
             steps.append(st)
-        return steps, linear
+        return steps, linear, affine
 
     _cache = {}
 
@@ -1357,6 +1475,16 @@ class C02(Prop):
                 continue
             pat = impl_out["final"][fidx[i]]
             dims = geo["all_dims"][fidx[i]] if len(geo["all_dims"]) == len(impl_out["final"]) else geo["dims"][i]
+            # the streamer has `temporal_dim` hardware loops: a longer pattern cannot be programmed, the loops beyond
+            # (the outermost ones) do not exist in the configuration (SNAXStreamer setup values are taken positionally)
+            tdim = geo["streamers"][fidx[i]][0] if len(geo.get("streamers") or []) == len(impl_out["final"]) else None
+            note = ""
+            force_new = False
+            if tdim is not None and len(pat["ub"]) > tdim:
+                note = (f"the pattern has {len(pat['ub'])} temporal loops, streamer {fidx[i]} has only {tdim} (the region was "
+                        f"accepted by the verifier); judged on the {tdim} loops the hardware has: ")
+                pat = {"ub": pat["ub"][:tdim], "ts": pat["ts"][:tdim], "ss": pat["ss"]}
+                force_new = True
             hw = hw_steps(pat, dims)
             if hw is None:
                 continue
@@ -1368,10 +1496,14 @@ class C02(Prop):
                 hw = [[a - 512 * i for a in st] for st in hw[i::2]]
             tag = None
             if impl_out.get("sched"):
-                sc, linear = self.layout_steps(case, impl_out, i)
+                sc, linear, affine = self.layout_steps(case, impl_out, i)
                 if sc is None:
                     continue
-                if not linear:
+                if not affine:
+                    note += ("the schedule pattern is not an affine map (mod / floordiv term) but was accepted and "
+                             "linearised: ")
+                    force_new = True
+                elif not linear:
                     tag = "DC02a"
             else:
                 sc = self.access_steps(impl_out, i)
@@ -1395,7 +1527,9 @@ class C02(Prop):
                 tag = "DC02c"      # the second input has no pattern / pointer of its own
             if tag is None:
                 tag = self._classify(impl_out, i, nhw, nsc)
-            out.append({"what": f"operand {i}: streamer pattern {pat} (ports {dims}) does not stream the scheduled elements: {why}; "
+            if force_new:
+                tag = None     # outside every listed finding: the unchanged tree refuses such an operation
+            out.append({"what": f"operand {i}: {note}streamer pattern {pat} (ports {dims}) does not stream the scheduled elements: {why}; "
                                 f"access strides {impl_out['access']['strides'][i]} bounds {impl_out['access']['bounds']}",
                         "finding": tag})
         return out
